@@ -100,13 +100,11 @@ func (r *Runner) execEncPlan(op *OpSpec, st *Step) *Rec {
 					fail("sufficient-buffer-error", what()+": error "+err.Error())
 				} else if n != s {
 					fail("size-mismatch", fmt.Sprintf("%s: EncodeObject wrote %d bytes, EncodedSize said %d", what(), n, s))
-				} else if a != nil {
-					if cb, pn, ok := model.CanonBytes(a.buf()[:n]); !ok || pn != n {
-						fail("output-not-a-message", what()+": the bytes written do not parse as one message of that length")
-					} else if d := model.Digest(cb); firstOut == "" {
-						firstOut = d
-					} else if d != firstOut {
-						fail("output-differs-between-calls", what()+": encoding the same value again gave a different message")
+				} else if a != nil && firstOut == "" {
+					// (whether the bytes are the right message is C02's business, whether a second call yields the
+					// same ones C16's; here they only feed the digest that other oracles compare)
+					if cb, _, ok := model.CanonBytes(a.buf()[:n]); ok {
+						firstOut = model.Digest(cb)
 					}
 				}
 			} else {
@@ -163,9 +161,8 @@ func (r *Runner) c05check(op *OpSpec, st *Step, sd *model.StructDef, m *message,
 	case model.Valid:
 		if res.Cls != "ok" {
 			r.violation("C05", "C05/rejected-well-formed/"+shape, fmt.Sprintf("DecodeObject(%s) rejected a well-formed message (%s): %s", op.Type, m.desc, res.Err), st)
-		} else if res.N != vn {
-			r.violation("C05", "C05/wrong-length/"+shape, fmt.Sprintf("DecodeObject(%s) consumed %d bytes, the message is %d bytes (%s)", op.Type, res.N, vn, m.desc), st)
 		}
+		_ = vn // how many bytes a successful decode reports is C03's business, not C05's
 	case model.Invalid:
 		if res.Cls == "ok" {
 			r.violation("C05", "C05/accepted-malformed/"+shape, fmt.Sprintf("DecodeObject(%s) accepted a malformed message, n=%d of %d bytes (%s)", op.Type, res.N, len(in), m.desc), st)
@@ -397,7 +394,7 @@ func (r *Runner) c09decCheck(op *OpSpec, st *Step, sd *model.StructDef, m *messa
 	res.Evals++
 	isReq, text := false, ""
 	if err != nil {
-		isReq, text = isRequiredErr(err)
+		isReq, text = invalidDataErr(err)
 	}
 	res.Tag = "dec/omit=" + strconv.Itoa(len(m.missing)) + "/" + sd.Shape()
 	if len(m.missing) > 0 {
@@ -414,7 +411,7 @@ func (r *Runner) c09decCheck(op *OpSpec, st *Step, sd *model.StructDef, m *messa
 		}
 		named := false
 		for _, n := range m.missing {
-			if strings.Contains(text, strconv.Quote(n)) {
+			if namesField(text, n) {
 				named = true
 			}
 		}
@@ -423,7 +420,9 @@ func (r *Runner) c09decCheck(op *OpSpec, st *Step, sd *model.StructDef, m *messa
 		}
 		return
 	}
-	if isReq {
+	// nothing required is missing: the message must not be rejected "on that account" - recognisable only by an
+	// invalid-data error that talks about a required field
+	if isReq && strings.Contains(strings.ToLower(text), "required") {
 		r.violation("C09", "C09/spurious-required-error", fmt.Sprintf("DecodeObject(%s) reported %q although every required field is present: %s", op.Type, text, m.w.String()), st)
 	}
 }
